@@ -275,6 +275,9 @@ SAME_DEG = {"unwrap", "expect", "clone", "abs", "to_owned", "view", "iter", "int
             "max_value", "into_inner", "unwrap_or", "to_vec", "mean"}
 
 
+KNOWN_RDEG = {}     # metric type name -> degree of its rdistance (filled by rule_degree, first pass)
+
+
 class DegError(Exception):
     def __init__(self, kind, msg, ln=None):
         Exception.__init__(self, msg)
@@ -296,6 +299,7 @@ class DegEval:
         self.env = dict(env)
         self.impl_rdeg = impl_rdeg
         self.inits = {}
+        self.truncated = {}
         self.self_local = None
         for p_ in fn["params"]:
             if p_.get("k") == "Bind" and p_["name"] == "self":
@@ -328,6 +332,8 @@ class DegEval:
                 raise DegError("unclassified", "exponent `%s` is not understood" % self.r.e(n), n.get("ln"))
         if k_ == "Field" and n["name"] == "0" and peel_refs(n["e"]).get("local") == self.self_local:
             return (Fraction(1), 1)
+        if k_ == "Path" and n.get("local") in self.truncated:
+            raise DegError("truncated-exponent", "the exponent `%s` is a truncated copy (%s) of the metric's exponent: for a fractional exponent the reduced distance is computed with another power than the one `distance` and the conversions use" % (n.get("name"), self.truncated[n["local"]]), n.get("ln"))
         if k_ == "Path" and n.get("local") in self.inits:
             return self.exponent(self.inits[n["local"]])
         if k_ == "Call":
@@ -406,6 +412,17 @@ class DegEval:
             b = self.deg(n["else"])
             return self.unify(a, b, n, "the two branches of a conditional")
         if k_ == "Match":
+            sc = peel_refs(n["scrut"])
+            conv = None
+            t_ = sc
+            while t_.get("k") == "MethodCall":
+                if t_["name"] in ("to_i32", "to_i64", "to_u32", "to_usize", "to_isize", "to_u64", "round", "floor", "ceil", "trunc"):
+                    conv = t_["name"]
+                t_ = peel_refs(t_["recv"])
+            if conv and t_.get("k") == "Field" and peel_refs(t_["e"]).get("local") == self.self_local:
+                for a in n["arms"]:
+                    for b in pat_bindings(a["pat"]):
+                        self.truncated[b["local"]] = conv
             out = ANY
             for a in n["arms"]:
                 out = self.unify(out, self.deg(a["body"]), n, "the arms of a match")
@@ -456,6 +473,14 @@ class DegEval:
                 self.unify(self.deg(n["args"][0]), self.deg(n["args"][1]), n, "`distance`")
                 return DEG1
             if tr.endswith("Distance") and nm == "rdistance":
+                rv = peel_refs(n["recv"])
+                if not (rv.get("k") == "Path" and rv.get("local") == self.self_local):
+                    # the reduced distance of another metric (L2Dist.rdistance(a, b) inside LpDist)
+                    rt = (self.c.ty(rv.get("t")) or "").split("<")[0].split("::")[-1]
+                    if rt in KNOWN_RDEG and KNOWN_RDEG[rt] is not None:
+                        return KNOWN_RDEG[rt]
+                    if rt:
+                        raise DegError("unclassified", "reduced degree of `%s` not known yet" % rt, n.get("ln"))
                 return self.impl_rdeg if self.impl_rdeg is not None else DEG1
             if nm in SAME_DEG:
                 return self.deg(n["recv"])
@@ -524,6 +549,16 @@ def rule_degree(ctx):
         res.sample({"method": key, "degree": deg_show(got)})
         return got
 
+    # first pass: reduced degree of every metric that does not refer to another one
+    KNOWN_RDEG.clear()
+    for name, ms in sorted(impls.items()):
+        if "rdistance" not in ms:
+            KNOWN_RDEG[name] = DEG1
+        else:
+            try:
+                KNOWN_RDEG[name] = DegEval(ms["rdistance"], None, params_of(ms["rdistance"], DEG1)).deg(ms["rdistance"]["body"])
+            except DegError:
+                KNOWN_RDEG[name] = None
     for name, ms in sorted(impls.items()):
         if "distance" not in ms:
             res.missing_anchor("%s::distance" % name)
@@ -547,7 +582,57 @@ def rule_degree(ctx):
     return res.finish(10)
 
 
+def rule_cover(ctx):
+    """The ball of a tree node must contain every point stored below it: its radius is the largest distance from the
+    centre over *all* points of both halves.  A radius computed over a shortened sequence (skip / take / step_by / filter)
+    can leave a point outside its ball, and the sphere bound then prunes a true neighbour."""
+    res = RuleResult("R-C07-cover", "the bounding radius of a ball-tree node is computed over every point of the node (no skip / take / filter in the scanned sequence)")
+    F = ctx.facts()
+    n_sites = 0
+    for fn in nn_fns(F):
+        c = fn["crate"]
+        inits = {}
+        for n in walk(fn["body"]):
+            if n.get("k") == "LetStmt" and n.get("init") is not None and n["pat"].get("k") == "Bind":
+                inits[n["pat"]["local"]] = n["init"]
+        for n in walk(fn["body"]):
+            if n.get("k") != "Call" or not n["args"]:
+                continue
+            f = strip(n["f"])
+            d = c.dfn(f.get("def")) if f.get("k") == "Path" else None
+            if not d or d["name"] != "calc_radius":
+                continue
+            n_sites += 1
+            key = fn_key(fn)
+            res.instance("%s : calc_radius #%d" % (key, n_sites))
+            seen = []
+            stack = [n["args"][0]]
+            hops = 0
+            while stack and hops < 40:
+                e = strip(stack.pop())
+                hops += 1
+                if not isinstance(e, dict):
+                    continue
+                if e.get("k") == "MethodCall":
+                    seen.append(e["name"])
+                    stack.append(e["recv"])
+                    if e["name"] in ("chain", "zip"):
+                        stack.extend(e["args"])
+                elif e.get("k") in ("Ref",) or (e.get("k") == "Unary"):
+                    stack.append(e["e"])
+                elif e.get("k") == "Path" and e.get("local") in inits:
+                    stack.append(inits[e["local"]])
+            bad = [x for x in seen if x in ("skip", "take", "step_by", "filter", "filter_map", "skip_while", "take_while", "nth", "last", "first")]
+            if bad:
+                res.violate("%s : radius-over-partial-sequence:%s" % (key, bad[0]), "the radius of the node is computed over a sequence shortened by `%s`: a point left out of the scan can lie outside the ball, and the bound `distance to centre - radius` then prunes it although it is within range" % bad[0], fn_loc(fn, n["ln"]))
+            else:
+                res.ok()
+    if n_sites == 0:
+        res.missing_anchor("calc_radius call sites in linfa-nn")
+    return res.finish(1)
+
+
 rule_memorder = layout.make_rule("R-C07-memorder", "raw memory-order buffers (as_slice_memory_order, into_raw_vec, as_ptr) of stored point batches are used by position only behind an is_standard_layout() test", lambda f: f["d"]["krate"] == "linfa_nn", "linfa-nn")
 
 def rules(tier):
-    return [rule_unit, rule_sib, rule_edge, rule_degree, rule_memorder]
+    return [rule_unit, rule_sib, rule_edge, rule_degree, rule_memorder, rule_cover]
